@@ -68,7 +68,7 @@ Fixpoint exec (w : world) (cs : list cmd) : bool :=
   match cs with
   | [] => true
   | CAct a :: r => exec (do_action remote w a) r
-  | CFinish i :: r => exec (run remote w (repeat (Step i) 8)) r
+  | CFinish i :: r => exec (run remote w (repeat (Step i) 9)) r
   | CCheck o :: r => obs_eqb (observe w) o && all_complete w && exec w r
   | CListing l f o :: r =>
       obs_eqb (observe w) (mkObs (tr_sort (listing_finals l)) (listing_leftovers l) f o) && listing_complete l && all_complete w && exec w r
@@ -79,7 +79,7 @@ Fixpoint final_world (w : world) (cs : list cmd) : world :=
   match cs with
   | [] => w
   | CAct a :: r => final_world (do_action remote w a) r
-  | CFinish i :: r => final_world (run remote w (repeat (Step i) 8)) r
+  | CFinish i :: r => final_world (run remote w (repeat (Step i) 9)) r
   | CCheck _ :: r | CListing _ _ _ :: r | CResolve _ _ _ :: r => final_world w r
   end.
 End Corr.
